@@ -81,20 +81,44 @@ fn routes_agree(mode: GameMode, pts: &[PathControlPoint], len: Option<f64>) -> R
         PathControlPoint { pos: Pos::new(100.0, 0.0), path_type: None },
         PathControlPoint { pos: Pos::new(100.0, 100.0), path_type: None },
     ];
-    let mut bufs = CurveBuffers::default();
-    {
-        let _ = BorrowedCurve::new(mode, &dirty, None, &mut bufs);
-    }
-    {
+    // histories for the shared buffers: a plain polyline; and curves that leave `calculate_length` through each of its early
+    // returns with scratch state behind them (an osu!-mode Catmull whose simplification removed length, ending in a doubled
+    // point with a longer requested length / with a non-positive requested length; a Bezier that grew the flattening buffers;
+    // an empty list)
+    let pt = |x: f32, y: f32, t: Option<rosu_map::section::hit_objects::PathType>| PathControlPoint { pos: Pos::new(x, y), path_type: t };
+    use rosu_map::section::hit_objects::PathType as PT;
+    let catmull = vec![pt(0.0, 0.0, Some(PT::CATMULL)), pt(50.0, 80.0, None), pt(100.0, 0.0, Some(PT::LINEAR)), pt(150.0, 0.0, None), pt(150.0, 0.0, None)];
+    let catmull2 = vec![pt(0.0, 0.0, Some(PT::CATMULL)), pt(50.0, 0.0, None), pt(50.0, 0.0, None)];
+    let bezier = vec![pt(0.0, 0.0, Some(PT::BEZIER)), pt(300.0, 400.0, None), pt(-200.0, 350.0, None), pt(500.0, -100.0, None), pt(10.0, 10.0, None), pt(250.0, 250.0, None)];
+    let histories: [Vec<(&[PathControlPoint], Option<f64>)>; 3] = [
+        vec![(&dirty, None)],
+        vec![(&bezier, Some(5000.0)), (&catmull, Some(1000.0))],
+        vec![(&catmull2, Some(200.0)), (&[], None), (&catmull, Some(-1.0))],
+    ];
+    for (hi, hist) in histories.iter().enumerate() {
+        let mut bufs = CurveBuffers::default();
+        for (hp, hl) in hist {
+            let _ = BorrowedCurve::new(GameMode::Osu, hp, *hl, &mut bufs);
+        }
         let b = BorrowedCurve::new(mode, pts, len, &mut bufs);
         if !(b.path().len() == want.path().len()
             && b.lengths().len() == want.lengths().len()
             && b.path().iter().zip(want.path()).all(|(a, c)| same_pos(*a, *c))
             && b.lengths().iter().zip(want.lengths()).all(|(a, c)| a.to_bits() == c.to_bits()))
         {
-            return Err("the borrowed curve computed on reused buffers differs from the fresh owned curve".into());
+            return Err(format!("the borrowed curve computed on reused buffers (history {hi}) differs from the fresh owned curve"));
+        }
+        // the owned route on the same used buffers
+        let o = Curve::new(mode, pts, len, &mut bufs);
+        if !(o.path().len() == want.path().len()
+            && o.lengths().iter().zip(want.lengths()).all(|(a, c)| a.to_bits() == c.to_bits())
+            && o.path().iter().zip(want.path()).all(|(a, c)| same_pos(*a, *c)))
+        {
+            return Err(format!("the owned curve computed on reused buffers (history {hi}) differs from the fresh owned curve"));
         }
     }
+    let mut bufs = CurveBuffers::default();
+    let _ = BorrowedCurve::new(GameMode::Osu, &catmull, Some(1000.0), &mut bufs);
     let mut sp = SliderPath::new(mode, pts.to_vec(), None);
     let _ = sp.curve();
     *sp.expected_dist_mut() = len;
